@@ -109,9 +109,12 @@ func init() {
 	reg(&PropDef{
 		ID:    "C11",
 		Title: "Slashing takes exactly the category's share of the disputed report's stake",
-		Funcs: fcNP("x/dispute/keeper.Keeper.GetDisputeFee", "x/dispute/keeper.GetSlashPercentageAndJailDuration"),
+		Funcs: fcNP("x/dispute/keeper.Keeper.GetDisputeFee", "x/dispute/keeper.GetSlashPercentageAndJailDuration", "x/reporter/keeper.Keeper.deductUnbondingDelegation"),
+		Assumptions: []string{
+			"assumed contract on the staking keeper (x/reporter/types.StakingKeeper): unbonding entries returned by GetUnbondingDelegation have non-negative balances; Set/RemoveUnbondingDelegation do not change bank balances, the validator set or total bonded tokens",
+		},
 		NotDecided: []string{
-			"escrow apportioning over selectors and redelegations/unbondings (EscrowReporterStake), slash-at-most-once, evidence equals the stored micro-report: not yet under contract",
+			"escrow apportioning over selectors and redelegations (EscrowReporterStake, undelegate, deductFromdelegation), slash-at-most-once, evidence equals the stored micro-report: not yet under contract",
 		},
 	})
 	reg(&PropDef{
